@@ -298,7 +298,7 @@ Section Rescan.
     pscan (out ++ f) = (S.IDENTIFIER, print3 t, f) \/ pscan (out ++ f) = (S.EXPRESSION, print3 t, f).
   Proof.
     intros s e t f Hflag Hne Hp Hm Hs Hnul. cbn zeta.
-    unfold migrate_seg, migrate_expression. rewrite Hne, Hp.
+    unfold migrate_seg, migrate_expression. rewrite Hne, Hp, (mt_no_errs ctxmap raw_dates e t Hm).
     destruct (visit_mt ctxmap raw_dates e t Hm) as [Pv [W L]]. rewrite Pv. cbn [fst]. unfold wrap_raw.
     pose proof (closed_print3 t L Hs) as Hclosed.
     destruct (is_valid_identifier (print3 t)) eqn:Ev.
